@@ -204,6 +204,11 @@ def structural_faults(gtirb, msg, rng, full):
         if role == "node":
             continue
         cands = [("missing", rng.getrandbits(128).to_bytes(16, "big"))]
+        present = set(u for us in kinds.values() for u in us)
+        for nm, u in (("missing-nil", bytes(16)),
+                      ("missing-ones", b"\xff" * 16)):
+            if u not in present:
+                cands.append((nm, u))
         for k, us in kinds.items():
             if k not in ALLOWED[role] and us:
                 cands.append(("wrong-kind:" + k, rng.choice(us)))
